@@ -15,6 +15,8 @@ var verifHarnesses = map[string]func(){
 	"VerifC11CancelAnywhere": VerifC11CancelAnywhere,
 	"VerifC03Forged":         VerifC03Forged,
 	"VerifC04Tampered":       VerifC04Tampered,
+	"VerifC13Concurrent":     VerifC13Concurrent,
+	"VerifC04ForeignChain":   VerifC04ForeignChain,
 	"VerifC02Heal":           VerifC02Heal,
 	"VerifC18Close":          VerifC18Close,
 	"VerifC13Snapshot":       VerifC13Snapshot,
